@@ -34,7 +34,7 @@ instance (sc : Scale) : Decidable sc.WF := by unfold WF; exact inferInstance
 def default : Scale := ⟨2, 7⟩
 
 /-- `Scale::get_precision`: `max(min(d.scale(), self.max), self.min)` -/
-def getPrecision (sc : Scale) (d : Dec) : Nat := Nat.max (Nat.min d.scale sc.max) sc.min
+def getPrecision (sc : Scale) (d : Dec) : Nat := Max.max (Min.min d.scale sc.max) sc.min
 
 end Scale
 
